@@ -23,5 +23,5 @@ names = [j.search_instance.paths.name.split("/")[-1] for j in jobs]
 print("folders:", names)
 gs.fit(model=model, analysis=Analysis(), grid_priors=[prior])
 print("cells fitted: %d of 4 (centres %s)" % (len(fitted), fitted))
-print("VIOLATION: 4 cells, %d distinct folders, %d fits" % (len(set(names)), len(fitted)) if len(set(names)) < 4 else "no violation: one folder and one fit per cell (repaired)")
+print("VIOLATION: 4 cells, %d distinct folders, %d fits" % (len(set(names)), len(fitted)) if len(set(names)) < 4 else "no violation: one folder and one fit per cell (repaired in /repo, cc931f4)")
 shutil.rmtree(out, ignore_errors=True)
